@@ -813,6 +813,19 @@ pub open spec fn header_pairs(h: Seq<HttpHeader>) -> Seq<(Seq<char>, Seq<char>)>
     let mut this = req;
 //@end
 
+/// C11, over the contract of into_protocol_request above (its header list is `req.header_pairs()`, the
+/// pairs in the header map's ITERATION order): would two requests with the same header contents give
+/// the same header list? Only if the iteration order were a function of the contents - for a HashMap
+/// with per-instance random state it is not, and nothing in the code orders the list. Known finding F6.
+pub open spec fn same_header_contents(a: Request, b: Request) -> bool {
+    a.entries().to_multiset() == b.entries().to_multiset()
+}
+proof fn the_protocol_request_is_a_function_of_the_requests_contents(a: Request, b: Request)
+    requires same_header_contents(a, b),
+    ensures a.header_pairs() == b.header_pairs(), // [C11/into_protocol_request/lemma/the-header-list-sent-to-the-shell-does-not-depend-on-the-header-maps-iteration-order]
+{
+}
+
 // ------------------------------------------------------------------ the end of the chain: one trip to the shell
 //@extract id=Client::send::endpoint file=crux_http/src/client.rs within="impl Client" item="fn send" closure="Next::new\(&\w+, &" props=C14+C15+C16
 //@expect |$x, $y|
